@@ -184,6 +184,23 @@ def replay(chk: Check, path: str) -> int:
     from demeter.uniswap.liquitidy_math import get_sqrt_ratio_at_tick
     from ..common import limbs_to_int
     rep = json.load(open(path))["replay"]
+    if rep.get("kind") == "call":       # a helper that raised on an argument of its domain
+        from decimal import Decimal
+        fn = {"sqrt_price_x96_to_tick": helper.sqrt_price_x96_to_tick, "tick_to_base_unit_price": helper.tick_to_base_unit_price,
+              "base_unit_price_to_tick": helper.base_unit_price_to_tick, "nearest_usable_tick": helper.nearest_usable_tick}.get(rep["fn"])
+        if "p" in rep:
+            args = [int(rep["p"])]
+        else:
+            args = [(a == "True") if a in ("True", "False") else (int(a) if a.lstrip("-").isdigit() else Decimal(a)) for a in rep["args"]]
+        if fn is None:
+            print("replay: not a module-level helper:", rep["fn"])
+        else:
+            try:
+                print("returned", fn(*args))
+            except Exception as e:
+                chk.violation(f"{rep['fn']}|raises|", f"{rep['fn']}{tuple(args)} raised {type(e).__name__}: {e}", rep)
+        chk.sample(rep)
+        return chk.finish("replay of one helper call")
     evs = []
     for e in rep["events"]:
         e = dict(e)
